@@ -24,7 +24,7 @@ U("skip_utf8_bom", "cjson", "harness/skip_utf8_bom.c", enforce="skip_utf8_bom", 
 U("parse_number", "cjson", "harness/parse_number.c", enforce="parse_number", shape="U", tiers=(),
   props=["C01", "C02", "C03", "C10", "C14", "C20"], covers=3, unwind=66, timeout=(900, 1800),
   note="copy loop bounded by the source constant 63 and the strtod model's scan of the 64-byte stack buffer: complete unwinding (a loop contract is not usable: the loop is left by `goto`, which dfcc's loop instrumentation mishandles)")
-U("parse_value", "cjson", "harness/parse_value.c", enforce="parse_value", shape="U", props=["C01", "C02", "C03", "C08", "C14", "C20"], covers=4, unwind=6,
+U("parse_value", "cjson", "harness/parse_value.c", enforce="parse_value", shape="U", props=["C01", "C02", "C03", "C08", "C10", "C14", "C20"], covers=4, unwind=6,
   replace=["parse_string", "parse_number/parse_number_cv", "parse_array", "parse_object"],
   note="dispatch proved for every buffer; delegates replaced by contracts (callee views)")
 U("parse_number_plain", "cjson", "harness/parse_number_plain.c", no_contract=True, shape="U", funcs=["parse_number"],
@@ -117,12 +117,22 @@ U("replace_item_in_object", "cjson", "harness/replace_item_in_object.c", enforce
 
 # ---------------------------------------------------------------- cJSON.c : containers (skeleton units, children <= K)
 U("parse_array", "cjson", "harness/parse_array.c", enforce="parse_array", shape="S", bound="children <= 3", object_bits=10,
-  props=["C01", "C02", "C03", "C04", "C07", "C08", "C14", "C20"], covers=5, defs=["-DVF_CONTAINER_VIEWS"], unwindset=["parse_array.0:3"], bounded_loops=[r"parse_array.*\.unwind\."],
+  props=["C01", "C02", "C03", "C04", "C07", "C08", "C10", "C14", "C20"], covers=5, defs=["-DVF_CONTAINER_VIEWS"], unwindset=["parse_array.0:3"], bounded_loops=[r"parse_array.*\.unwind\."],
   replace=["cJSON_New_Item/cJSON_New_Item_cv", "parse_value/parse_value_cv", "cJSON_Delete/cJSON_Delete_chain_cv", "buffer_skip_whitespace/buffer_skip_whitespace_cv"], timeout=(900, 3000),
   note="element values arbitrary (recursive call replaced by its contract); only the element loop is cut at K")
 U("parse_object", "cjson", "harness/parse_object.c", enforce="parse_object", shape="S", bound="members <= 3", object_bits=10,
-  props=["C01", "C02", "C03", "C04", "C07", "C08", "C14", "C20"], covers=5, defs=["-DVF_CONTAINER_VIEWS"], unwindset=["parse_object.0:3"], bounded_loops=[r"parse_object.*\.unwind\."],
+  props=["C01", "C02", "C03", "C04", "C07", "C08", "C10", "C14", "C20"], covers=5, defs=["-DVF_CONTAINER_VIEWS"], unwindset=["parse_object.0:3"], bounded_loops=[r"parse_object.*\.unwind\."],
   replace=["cJSON_New_Item/cJSON_New_Item_cv", "parse_string/parse_string_cv", "parse_value/parse_value_cv", "cJSON_Delete/cJSON_Delete_chain_cv", "buffer_skip_whitespace/buffer_skip_whitespace_cv"], timeout=(900, 3000))
+U("print_array", "cjson", "harness/print_array.c", enforce="print_array", shape="S", bound="children <= 2 (quick) / 3 (thorough)", object_bits=10, sat="minisat2",
+  props=["C04", "C05", "C08", "C09", "C20"], covers=5, defs=["-DVF_PRINT_CONT"], tdefs={"quick": ["-DPA_K=2"], "thorough": ["-DPA_K=3"]}, unwindset=["print_array.0:4"],
+  replace=["ensure/ensure_pc", "print_value/print_value_pc", "update_offset/update_offset_pc"], timeout=(900, 3000),
+  note="element values arbitrary (recursive print_value replaced by a logging view); at most three children by precondition")
+for _f in (0, 1):
+    U("print_object_f%d" % _f, "cjson", "harness/print_object.c", enforce="print_object", shape="S", bound="format %d; members <= 1, depth <= 1 (quick) / members <= 2, depth <= 2 (thorough)" % _f, object_bits=10, sat="minisat2", mem=30,
+      props=["C04", "C05", "C08", "C09", "C20"], covers=5, defs=["-DVF_PRINT_CONT", "-DPO_FMT=%d" % _f, "-Dh_print_object=h_print_object_f%d" % _f],
+      tdefs={"quick": ["-DPO_K=1", "-DPO_DMAX=1"], "thorough": ["-DPO_K=2", "-DPO_DMAX=2"]}, unwindset=["print_object.0:5", "print_object.1:5", "print_object.2:5"],
+      replace=["ensure/ensure_pc", "print_value/print_value_pc", "print_string_ptr/print_string_ptr_pc", "update_offset/update_offset_pc"], timeout=(900, 3000),
+      note="member values and keys arbitrary (print_value / print_string_ptr replaced by logging views); member count and depth bounded by precondition")
 U("cJSON_Delete", "cjson", "harness/cJSON_Delete.c", tiers=(), enforce="cJSON_Delete", rec=True, shape="S", bound="chain <= 2 nodes, children abstract", props=["C07", "C14", "C20"], covers=2,
   unwindset=["cJSON_Delete.0:3"], bounded_loops=[r"cJSON_Delete.*\.unwind\."], timeout=(900, 3000),
   note="recursive call cut by the contract (--enforce-contract-rec, opaque subtree tokens)")
@@ -172,7 +182,8 @@ U("print_b_20", "cjson", "harness/print_b.c", tiers=("thorough",), no_contract=T
 U("print_b_11", "cjson", "harness/print_b.c", tiers=("thorough",), no_contract=True, shape="B", bound="tree shape: root + 1 children + 1 grandchild; no numbers, no escapes", funcs=["print_value", "print_array", "print_object", "print_string_ptr", "ensure", "update_offset", "cJSON_PrintPreallocated"],
   props=["C04", "C05", "C09"], covers=3, unwind=66, unwindset=["tabs.0:4", "ref_value.0:3", "ref_value.1:3", "ref_value:4", "print_value:4", "print_array:3", "print_object:3", "print_array.0:4", "print_object.0:4", "print_object.1:4", "print_object.2:4"], timeout=(900, 3000),
   defs=["-DPB_NC=1", "-DPB_NG=1", "-Dh_print_b=h_print_b_11"], note="real ensure() in noalloc mode; reference printer written from the documented layout")
-U("print_b_21", "cjson", "harness/print_b.c", tiers=("thorough",), no_contract=True, shape="B", bound="tree shape: root + 2 children + 1 grandchild; no numbers, no escapes", funcs=["print_value", "print_array", "print_object", "print_string_ptr", "ensure", "update_offset", "cJSON_PrintPreallocated"],
+U("print_b_21", "cjson", "harness/print_b.c", tiers=(),  # does not finish within 3000 s (measured in the thorough run): kept for reference, not part of any tier
+   no_contract=True, shape="B", bound="tree shape: root + 2 children + 1 grandchild; no numbers, no escapes", funcs=["print_value", "print_array", "print_object", "print_string_ptr", "ensure", "update_offset", "cJSON_PrintPreallocated"],
   props=["C04", "C05", "C09"], covers=3, unwind=66, unwindset=["tabs.0:4", "ref_value.0:3", "ref_value.1:3", "ref_value:4", "print_value:4", "print_array:3", "print_object:3", "print_array.0:4", "print_object.0:4", "print_object.1:4", "print_object.2:4"], timeout=(900, 3000),
   defs=["-DPB_NC=2", "-DPB_NG=1", "-Dh_print_b=h_print_b_21"], note="real ensure() in noalloc mode; reference printer written from the documented layout")
 U("delete_b", "cjson", "harness/delete_b.c", no_contract=True, shape="B", bound="trees <= 4 nodes, depth <= 2", funcs=["cJSON_Delete"], props=["C07", "C14"], covers=3, unwind=5,
@@ -311,6 +322,22 @@ for _sc in range(4):
       funcs=["generate_merge_patch", "cJSONUtils_GenerateMergePatchCaseSensitive", "merge_patch", "sort_object", "compare_json"], props=["C18"], covers=1, unwind=8,
       unwindset=_AP_UW + ["generate_merge_patch:4", "generate_merge_patch.0:5", "merge_patch:4", "merge_patch.0:4", "cJSON_Compare:4", "cJSONUtils_GenerateMergePatch:3"], timeout=(900, 3000),
       defs=["-DGM_SCEN=%d" % _sc, "-Dh_u_genmerge_b=h_u_genmerge_b_%d" % _sc], mem=30, tiers=())
+
+# array helpers of cJSON_Utils.c behind the patch operations on array elements
+for _op, _opn in ((0, "detach"), (1, "insert")):
+    for _n in (0, 1, 2, 3):
+        U("u_array_%s_b_%d" % (_opn, _n), "both", "harness/u_array_helpers_b.c", no_contract=True, shape="B", bound="array of exactly %d elements, every index 0..%d" % (_n, _n + 1),
+          funcs=["detach_item_from_array" if _op == 0 else "insert_item_in_array"], props=["C16", "C06"], covers=2, unwind=6,
+          defs=["-DAH_N=%d" % _n, "-DAH_OP=%d" % _op, "-Dh_u_array_helpers_b=h_u_array_%s_b_%d" % (_opn, _n)],
+          note="list model: position, order of the others, chain health (next/prev mirror, first->prev == last)")
+
+# compare_json: the equality behind the patch "test" operation and both generators
+for _na, _nb, _tiers in ((0, 0, ("quick", "thorough")), (0, 1, ("quick", "thorough")), (1, 1, ("quick", "thorough")), (1, 2, ("quick", "thorough")), (2, 1, ("quick", "thorough")), (2, 2, ("thorough",))):
+    U("u_compare_json_b_%d%d" % (_na, _nb), "both", "harness/u_compare_json_b.c", no_contract=True, shape="B", tiers=_tiers, bound="first tree root + %d leaf children, second root + %d" % (_na, _nb),
+      funcs=["compare_json", "sort_object", "sort_list", "compare_strings"], props=["C16", "C18"], covers=3, unwind=5, sat=("minisat2" if (_na, _nb) == (2, 2) else "cadical"),
+      unwindset=["compare_json:3", "compare_json.0:4", "compare_json.1:4", "sort_list:3", "sort_list.0:3", "sort_list.1:3", "sort_list.2:3"], timeout=(900, 3000),
+      defs=["-DCJ_NA=%d" % _na, "-DCJ_NB=%d" % _nb, "-Dh_u_compare_json_b=h_u_compare_json_b_%d%d" % (_na, _nb)],
+      note="model equality of JSON values against compare_json for every pair of trees of this shape; both case modes")
 
 # fully concrete scenarios for the generators (one input each; supplementary, not a decision procedure for C17/C18)
 for _sc in range(5):
